@@ -58,14 +58,18 @@ func chooseChunks(x *engine.Exec, n, full int) [][2]int {
 	}
 	var out [][2]int
 	start := 0
+	cuts := 0
 	for i := 1; i < n; i++ {
 		var cut bool
 		if n <= full {
 			cut = x.Choose(2) == 1
+		} else if n > 64 && cuts >= 2 {
+			cut = false // documents of more than 64 bytes: at most two cuts, whatever the deviation bound
 		} else {
 			cut = x.Dev(2) == 1
 		}
 		if cut {
+			cuts++
 			out = append(out, [2]int{start, i})
 			start = i
 		}
